@@ -89,6 +89,24 @@ def gen(seed=0):
                                      ("u", "output", lg(w))],
                               f"    assign z = x {o1} a;\n    assign y = (x {o1} a) {o2} (x {o1} b);\n"
                               f"    assign v = (x {o1} b) {o2} (x {o1} c);\n    assign u = (x {o1} c) {o2} (a {o1} x);"))
+    # first arm shared with another consumer, second arm private (and the mirror image)
+    for (n1, o1) in gates:
+        for (n2, o2) in gates:
+            if n1 == n2:
+                continue
+            for w in (1, 3):
+                for mirror in (False, True):
+                    name = f"Share2_{n1}_{n2}_{w}_{'m' if mirror else 'f'}"
+                    first, second = (f"(x {o1} b)", f"(x {o1} a)") if mirror else (f"(x {o1} a)", f"(x {o1} b)")
+                    add(name, mod(name, [("x", "input ", lg(w)), ("a", "input ", lg(w)), ("b", "input ", lg(w)),
+                                         ("z", "output", lg(w)), ("y", "output", lg(w))],
+                                  f"    assign z = x {o1} a;\n    assign y = {first} {o2} {second};"))
+    for w in (1, 2):
+        name = f"Share3_{w}"
+        add(name, mod(name, [("clk", "input ", "clock"), ("x", "input ", lg(w)), ("a", "input ", lg(w)), ("b", "input ", lg(w)),
+                             ("q", "output", lg(w)), ("y", "output", lg(w))],
+                      f"    var r: logic<{w}>;\n    always_ff (clk) {{\n        r = x & a;\n    }}\n    assign q = r;\n"
+                      "    assign y = (x & a) | (x & b);"))
     name = "Share_mux"
     add(name, mod(name, [("s", "input ", "logic"), ("t", "input ", "logic"), ("a", "input ", lg(4)), ("b", "input ", lg(4)),
                          ("c", "input ", lg(4)), ("p", "output", lg(4)), ("q", "output", lg(4)), ("r", "output", lg(4))],
